@@ -1,9 +1,9 @@
 CONSTANTS
   N = 2
-  MaxCmd = 2
-  MaxVar = 1
+  MaxCmd = 1
+  MaxVar = 2
   NCtx = 0
-  HookKinds = {"none"}
+  HookKinds = {"none", "ok", "fail"}
 SPECIFICATION Spec
 INVARIANTS CommandsAfterDependencies StopsAtFailure FinalOK RunOnlyWhileStageRunning UpBeforeUse DownAfterAll OneUpAtATime
 PROPERTY Terminates
